@@ -88,6 +88,7 @@ type WeatherSpec struct {
 	Code          string // fcode
 	Folder        string
 	CO2InFile     float64 // layout 2: CO2 column value (0 = no column)
+	CO2InHeader   float64 `json:",omitempty"` // three-line header: CO2 concentration in the station line instead of the ----- placeholder
 	ExactTavg     bool    // write the mean temperature with full precision (pairs with the layout that derives it from min/max)
 }
 
@@ -230,6 +231,7 @@ type Scenario struct {
 	FileExt              string            `json:",omitempty"` // fileExtension=<ext> on the batch line (rotation, polygon, automan files carry it)
 	GWId                 string            `json:",omitempty"` // gwId=<id> on the batch line selects the groundwater series
 	ReducedTablesWithout string            // the project runs with a parameter folder of its own whose texture tables lack this texture
+	OwnNFunction         map[string]int    `json:",omitempty"` // YAML crop parameter file -> N-content function (7, 8, 9) it carries in the project's own parameter folder
 	AliasCrops           map[string]string // crop code of the built-in table without a shipped parameter file -> shipped crop whose parameter file the project supplies under that name
 	AlwaysPreco          bool              // write the monthly precipitation-correction table even if the correction is off (a batch line may switch it on)
 	PrecoFactors         [12]float64
@@ -745,6 +747,17 @@ func genWithProfile(prop string, seed uint64, idx int, r *Rng, p Profile) *Scena
 		}
 	}
 	tightenCenturySplit(sc, NewRng(mix(mix(seed, uint64(idx)), 1900)))
+	if prop == "C02" || prop == "C07" || prop == "C06" || prop == "C09" || prop == "C08" {
+		// the N-content functions 7, 8 and 9 of the crop model are used by no shipped parameter file: 5 % of the cases grow
+		// their first crop with a parameter file of the project's own - the shipped YAML file with another N function
+		if r9 := NewRng(mix(mix(seed, uint64(idx)), 789)); r9.Bool(0.05) && len(sc.Rotation) > 1 && len(sc.AliasCrops) == 0 && sc.ReducedTablesWithout == "" {
+			e := &sc.Rotation[1]
+			if ci := cropInfo(e.Crop); ci != nil && !ci.Legume && !isPerennial(e.Crop) {
+				sc.OwnNFunction = map[string]int{cropParamFileName(e.Crop, e.Variety, true): pickI(r9, []int{7, 8, 9})}
+				sc.CropParamYml = true
+			}
+		}
+	}
 	if prop == "C02" || prop == "C07" || prop == "C06" {
 		// built-in crop codes whose growth parameters are not shipped (field bean, spring barley, oat 'H', pea, maize 'M'): the
 		// project supplies the parameter file itself (a copy of a related shipped crop); 6 % of the cases grow one as first crop
@@ -1025,6 +1038,9 @@ func genWeather(sc *Scenario, r *Rng, p Profile) {
 	w.Altitude = sc.Altitude
 	// the station line of a three-line header carries its own altitude: in half of those files it differs from the configured
 	// one (the header wins), in a sixth it lies below sea level (written with a leading minus sign)
+	if rc2 := NewRng(mix(mix(sc.Seed, uint64(sc.Index)), 4242)); w.NumHeader == 3 && rc2.Bool(0.3) {
+		w.CO2InHeader = float64(rc2.Range(330, 750)) // the station line also carries the CO2 concentration of the series
+	}
 	if ra := NewRng(mix(mix(sc.Seed, uint64(sc.Index)), 4141)); w.NumHeader == 3 && ra.Bool(0.5) {
 		w.Altitude = float64(ra.Range(0, 3000))
 		if ra.Bool(0.33) {
